@@ -35,11 +35,17 @@ type Monitors struct {
 	hits map[string]int
 	// dispatch bookkeeping for C08: task id -> last dispatched counter that was reported success
 	regions map[string]bool
+	// guaranteed lease end per claimed task (claim, then timely heartbeats)
+	guar map[string]int64
+	// counter with which a task was last selected by a dispatch cycle
+	selected map[string]int
+	// rows reported to a request's lock command
+	opRows map[string]int64
 }
 
 func NewMonitors(s *Sim) *Monitors {
 	m := &Monitors{s: s, routerFailed: map[string]bool{}, claimed: map[string]string{}, sends: map[string][]*SentMsg{},
-		completedAt: map[string]int64{}, deletedAck: map[string]int64{}, fired: map[string]int{}, hits: map[string]int{}, regions: map[string]bool{}}
+		completedAt: map[string]int64{}, deletedAck: map[string]int64{}, fired: map[string]int{}, hits: map[string]int{}, regions: map[string]bool{}, guar: map[string]int64{}, selected: map[string]int{}, opRows: map[string]int64{}}
 	found := false
 	for _, src := range s.cfg.Sources {
 		if src.Name == "default" {
@@ -486,6 +492,7 @@ func (m *Monitors) checkTasks(prev *vh.Snapshot, bi *BatchInfo, next *vh.Snapsho
 					m.violate("C07", "row:claim-not-as-requested", fmt.Sprintf("claim request %s (in flight from tick %d) produced row %s at tick %d", o.Req, o.CallTick, t1, t))
 				}
 			}
+			m.guar[id] = t1.ExpiresAt
 			m.region("claim")
 		case t0.State == 4 && t1.State == 4:
 			// heartbeat: only expiresAt may change
@@ -497,6 +504,13 @@ func (m *Monitors) checkTasks(prev *vh.Snapshot, bi *BatchInfo, next *vh.Snapsho
 			for _, c := range cmds {
 				if c.cmd.Kind == t_aio.HeartbeatTasks && t0.ProcessId != nil && c.cmd.HeartbeatTasks.ProcessId == *t0.ProcessId && t1.ExpiresAt == c.cmd.HeartbeatTasks.Time+t0.Ttl {
 					ok = true
+					// a heartbeat that arrives before the lease has run out extends the guaranteed lease
+					if h := c.cmd.HeartbeatTasks.Time; h < m.guar[id] {
+						m.guar[id] = h + t0.Ttl
+						m.region("timely-heartbeat")
+					} else {
+						m.hit("task.late-heartbeat")
+					}
 				}
 			}
 			if !ok {
@@ -541,8 +555,13 @@ func (m *Monitors) checkTasks(prev *vh.Snapshot, bi *BatchInfo, next *vh.Snapsho
 			if t1.Counter != t0.Counter+1 {
 				m.violate("C07", "row:reinit-counter", fmt.Sprintf("reclaimed task did not get counter+1: %s -> %s", t0, t1))
 			}
-			if t0.ExpiresAt > t && t0.Timeout > t {
-				m.violate("C07", "row:lease-not-honoured", fmt.Sprintf("task taken away at tick %d although lease runs to %d and timeout to %d: %s", t, t0.ExpiresAt, t0.Timeout, t0))
+			lease := t0.ExpiresAt
+			if t0.State == 4 {
+				// the lease a holder can rely on: claim, then heartbeats that arrived before it ran out
+				lease = m.guar[id]
+			}
+			if lease > t && t0.Timeout > t {
+				m.violate("C07", "row:lease-not-honoured", fmt.Sprintf("task taken away at tick %d although its lease runs to %d and its timeout to %d: %s", t, lease, t0.Timeout, t0))
 			}
 			if t1.ProcessId != nil || t1.Attempt != 0 || t1.Ttl != 0 || t1.ExpiresAt != 0 {
 				m.violate("C07", "row:reinit-fields", fmt.Sprintf("reclaimed task keeps holder data: %s", t1))
@@ -585,6 +604,7 @@ func (m *Monitors) checkTasks(prev *vh.Snapshot, bi *BatchInfo, next *vh.Snapsho
 						hb = true
 					}
 				}
+				m.guar[id] = t1.ExpiresAt
 				if t1.ProcessId == nil || t1.CreatedOn == nil || (t1.ExpiresAt != *t1.CreatedOn+t1.Ttl && !hb) {
 					m.violate("C07", "row:born-claimed-fields", fmt.Sprintf("task born claimed with inconsistent lease: %s", t1))
 				}
@@ -636,113 +656,141 @@ func (m *Monitors) hasCmd(cmds []cmdRes, kind t_aio.StoreKind, key string) bool 
 // locks: C09
 
 func (m *Monitors) checkLocks(prev *vh.Snapshot, bi *BatchInfo, next *vh.Snapshot, cmds []cmdRes) {
+	// The lock table is small enough to replay: the batch's lock commands are
+	// applied in order to a model that starts from the previous snapshot. Each
+	// step is judged (mutual exclusion, lease arithmetic, sweep entitlement),
+	// each reported row count and the final table must agree with the model.
 	t := bi.Tick
-	ids := map[string]bool{}
-	for id := range prev.L {
-		ids[id] = true
+	model := map[string]*vh.LRow{}
+	for id, l := range prev.L {
+		cp := *l
+		model[id] = &cp
 	}
-	for id := range next.L {
-		ids[id] = true
-	}
-	released := func(res, exec string) bool {
-		for _, c := range cmds {
-			if c.cmd.Kind == t_aio.ReleaseLock && c.cmd.ReleaseLock.ResourceId == res && c.cmd.ReleaseLock.ExecutionId == exec && c.res != nil && rowsOf(c.res) >= 1 {
-				return true
-			}
-		}
-		return false
-	}
-	swept := func(l *vh.LRow) (bool, bool) { // (a sweep ran, it was entitled to take l)
-		ran := false
-		for _, c := range cmds {
-			if c.cmd.Kind == t_aio.TimeoutLocks && c.res != nil {
-				ran = true
-				if l.ExpiresAt <= c.cmd.TimeoutLocks.Timeout && c.cmd.TimeoutLocks.Timeout <= t {
-					return true, true
-				}
-			}
-		}
-		return ran, false
-	}
-	acquired := func(res, exec string) *t_aio.AcquireLockCommand {
-		var last *t_aio.AcquireLockCommand
-		for _, c := range cmds {
-			if c.cmd.Kind == t_aio.AcquireLock && c.cmd.AcquireLock.ResourceId == res && c.cmd.AcquireLock.ExecutionId == exec && c.res != nil && rowsOf(c.res) == 1 {
-				last = c.cmd.AcquireLock
-			}
-		}
-		return last
-	}
-	for id := range ids {
-		l0, l1 := prev.L[id], next.L[id]
-		switch {
-		case l0 != nil && l1 == nil:
-			m.hit("lock.removed")
-			if released(id, l0.ExecutionId) {
-				break
-			}
-			ran, ok := swept(l0)
-			if ok {
-				m.region("lock-sweep")
-				break
-			}
-			if ran {
-				m.violate("C09", "row:lock-swept-before-expiry", fmt.Sprintf("lock %s removed by a sweep at tick %d before its lease end", l0, t))
-			} else {
-				m.violate("C09", "row:lock-vanished", fmt.Sprintf("lock %s removed in batch #%d without release by its holder or sweep", l0, bi.Index))
-			}
-		case l0 == nil && l1 != nil:
-			m.hit("lock.acquired")
-			a := acquired(id, l1.ExecutionId)
-			if a == nil {
-				m.violate("C09", "row:lock-created-without-acquire", fmt.Sprintf("lock %s appeared in batch #%d without an acquire by that execution", l1, bi.Index))
-				break
-			}
-			m.checkLease(l1, t, cmds)
-		case l0.String() != l1.String():
-			if l0.ExecutionId != l1.ExecutionId {
-				_, sw := swept(l0)
-				if !(released(id, l0.ExecutionId) || sw) {
-					m.violate("C09", "row:lock-stolen", fmt.Sprintf("lock holder changed without release or expiry sweep: %s -> %s", l0, l1))
-				}
-				if acquired(id, l1.ExecutionId) == nil {
-					m.violate("C09", "row:lock-created-without-acquire", fmt.Sprintf("lock %s appeared without an acquire by that execution", l1))
-				}
-				break
-			}
-			m.hit("lock.renewed")
-			m.checkLease(l1, t, cmds)
-			m.region("lock-renew")
-		}
-	}
-}
-
-// checkLease: the row's lease must be explained by an acquire of the same
-// execution or a heartbeat of the owning process, with expiresAt = time+ttl.
-func (m *Monitors) checkLease(l *vh.LRow, t int64, cmds []cmdRes) {
-	ok := false
+	touched := false
 	for _, c := range cmds {
 		if c.res == nil {
 			continue
 		}
 		switch c.cmd.Kind {
 		case t_aio.AcquireLock:
+			touched = true
 			a := c.cmd.AcquireLock
-			if a.ResourceId == l.ResourceId && a.ExecutionId == l.ExecutionId && rowsOf(c.res) == 1 && a.ProcessId == l.ProcessId && a.Ttl == l.Ttl && a.ExpiresAt == l.ExpiresAt {
-				ok = true
+			cur := model[a.ResourceId]
+			want := int64(0)
+			if cur == nil || cur.ExecutionId == a.ExecutionId {
+				want = 1
+			}
+			got := rowsOf(c.res)
+			if got != want {
+				if got == 1 {
+					m.violate("C09", "model:acquired-while-held", fmt.Sprintf("acquire of %s by %s succeeded at tick %d while %s holds it (%s)", a.ResourceId, a.ExecutionId, t, cur.ExecutionId, cur))
+				} else {
+					m.violate("C09", "model:acquire-refused-while-free", fmt.Sprintf("acquire of %s by %s was refused at tick %d although the lock is free or its own (%v)", a.ResourceId, a.ExecutionId, t, cur))
+				}
+			}
+			if got == 1 {
+				if cur == nil {
+					m.hit("lock.acquired")
+				} else {
+					m.hit("lock.reacquired")
+					m.region("lock-renew")
+				}
+				model[a.ResourceId] = &vh.LRow{ResourceId: a.ResourceId, ExecutionId: a.ExecutionId, ProcessId: a.ProcessId, Ttl: a.Ttl, ExpiresAt: a.ExpiresAt}
+				if a.ExpiresAt-a.Ttl > t {
+					m.violate("C09", "model:lease-from-future", fmt.Sprintf("acquire at tick %d computed expiresAt %d with ttl %d", t, a.ExpiresAt, a.Ttl))
+				}
+				if o := m.s.opById[c.tx.ReqId]; o != nil && o.Req.Kind == t_api.AcquireLock {
+					r := o.Req.AcquireLock
+					if r.ResourceId != a.ResourceId || r.ExecutionId != a.ExecutionId || r.ProcessId != a.ProcessId || r.Ttl != a.Ttl || a.ExpiresAt-a.Ttl < o.CallTick {
+						m.violate("C09", "model:acquire-not-as-requested", fmt.Sprintf("request %s (in flight from tick %d) issued %s", o.Req, o.CallTick, cmdString(c.cmd)))
+					}
+				}
+			} else {
+				m.hit("lock.refused")
+				m.region("lock-contended")
+			}
+		case t_aio.ReleaseLock:
+			touched = true
+			rl := c.cmd.ReleaseLock
+			cur := model[rl.ResourceId]
+			want := int64(0)
+			if cur != nil && cur.ExecutionId == rl.ExecutionId {
+				want = 1
+			}
+			if rowsOf(c.res) != want {
+				m.violate("C09", "model:release-rows", fmt.Sprintf("release of %s by %s reported %d rows, holder is %v", rl.ResourceId, rl.ExecutionId, rowsOf(c.res), cur))
+			}
+			if want == 1 {
+				m.hit("lock.released")
+				delete(model, rl.ResourceId)
+			} else if cur != nil {
+				m.hit("lock.release-by-other-ignored")
 			}
 		case t_aio.HeartbeatLocks:
+			touched = true
 			h := c.cmd.HeartbeatLocks
-			if h.ProcessId == l.ProcessId && l.ExpiresAt == h.Time+l.Ttl {
-				ok = true
+			n := int64(0)
+			for _, l := range model {
+				if l.ProcessId == h.ProcessId {
+					l.ExpiresAt = h.Time + l.Ttl
+					n++
+				}
+			}
+			if n > 0 {
+				m.hit("lock.heartbeat")
+				m.region("lock-renew")
+			}
+			if rowsOf(c.res) != n {
+				m.violate("C09", "model:heartbeat-rows", fmt.Sprintf("heartbeat of %s reported %d locks, the process holds %d", h.ProcessId, rowsOf(c.res), n))
+			}
+			if h.Time > t {
+				m.violate("C09", "model:lease-from-future", fmt.Sprintf("heartbeat at tick %d used time %d", t, h.Time))
+			}
+			if o := m.s.opById[c.tx.ReqId]; o != nil && o.Req.Kind == t_api.HeartbeatLocks && (o.Req.HeartbeatLocks.ProcessId != h.ProcessId || h.Time < o.CallTick) {
+				m.violate("C09", "model:heartbeat-not-as-requested", fmt.Sprintf("request %s (in flight from tick %d) issued %s", o.Req, o.CallTick, cmdString(c.cmd)))
+			}
+		case t_aio.TimeoutLocks:
+			touched = true
+			tl := c.cmd.TimeoutLocks
+			if tl.Timeout > t {
+				m.violate("C09", "model:sweep-ahead-of-clock", fmt.Sprintf("expiry sweep at tick %d removes locks expiring up to %d", t, tl.Timeout))
+			}
+			n := int64(0)
+			for id, l := range model {
+				if l.ExpiresAt <= tl.Timeout {
+					delete(model, id)
+					n++
+					m.region("lock-sweep")
+				} else {
+					m.hit("lock.survived-sweep")
+				}
+			}
+			if rowsOf(c.res) != n {
+				m.violate("C09", "model:sweep-rows", fmt.Sprintf("expiry sweep(%d) at tick %d removed %d locks, %d had expired", tl.Timeout, t, rowsOf(c.res), n))
 			}
 		}
 	}
-	if !ok {
-		m.violate("C09", "row:lease-unexplained", fmt.Sprintf("lock row %s is not the result of an acquire by its execution or a heartbeat by its process", l))
-	}
-	if l.ExpiresAt-l.Ttl > t {
-		m.violate("C09", "row:lease-from-future", fmt.Sprintf("lock lease computed from a time after tick %d: %s", t, l))
+	// the table must be what the model says
+	if touched || len(prev.L) != len(next.L) {
+		for id, l := range next.L {
+			ml := model[id]
+			if ml == nil {
+				m.violate("C09", "model:lock-row-unexplained", fmt.Sprintf("lock %s exists after batch #%d, the commands do not explain it", l, bi.Index))
+			} else if ml.String() != l.String() {
+				m.violate("C09", "model:lock-row-differs", fmt.Sprintf("lock row is %s after batch #%d, the commands produce %s", l, bi.Index, ml))
+			}
+		}
+		for id, ml := range model {
+			if next.L[id] == nil {
+				m.violate("C09", "model:lock-vanished", fmt.Sprintf("lock %s is gone after batch #%d although no release by its holder or entitled sweep removed it", ml, bi.Index))
+			}
+		}
+	} else {
+		for id, l := range next.L {
+			if p0 := prev.L[id]; p0 == nil || p0.String() != l.String() {
+				m.violate("C09", "model:lock-row-unexplained", fmt.Sprintf("lock %s changed in batch #%d without any lock command", l, bi.Index))
+			}
+		}
 	}
 }
 
@@ -763,6 +811,7 @@ func (m *Monitors) checkSchedules(prev *vh.Snapshot, bi *BatchInfo, next *vh.Sna
 			if !ok {
 				m.violate("C10", "row:schedule-vanished", fmt.Sprintf("schedule %s disappeared without a delete", id))
 			}
+			m.deletedAck[id] = t // tick of the commit that removed the row
 			continue
 		}
 		if s0.String() == s1.String() {
@@ -813,7 +862,19 @@ func (m *Monitors) checkSchedules(prev *vh.Snapshot, bi *BatchInfo, next *vh.Sna
 			m.violate("C10", "row:occurrence-without-promise", fmt.Sprintf("schedule %s advanced past %d but promise %q does not exist", id, occ, pid))
 			continue
 		}
-		if prev.P[pid] == nil {
+		createdHere := false
+		for _, c := range cmds {
+			if c.tx.Name != "SchedulePromises" || c.res == nil || rowsOf(c.res) != 1 {
+				continue
+			}
+			if (c.cmd.Kind == t_aio.CreatePromise && c.cmd.CreatePromise.Id == pid) || (c.cmd.Kind == t_aio.CreatePromiseAndTask && c.cmd.CreatePromiseAndTask.PromiseCommand.Id == pid) {
+				createdHere = true
+			}
+		}
+		if prev.P[pid] == nil && !createdHere {
+			m.hit("schedule.promise-created-by-user-in-same-batch")
+		}
+		if createdHere {
 			m.hit("schedule.promise-created")
 			wantTags := vh.JSONMap(s0.PTags)
 			wantTags["resonate:schedule"] = id
@@ -853,11 +914,13 @@ func (m *Monitors) checkSchedules(prev *vh.Snapshot, bi *BatchInfo, next *vh.Sna
 			}
 		}
 		if !adv {
-			if ack, ok := m.deletedAck[sid]; ok {
-				occ := pc.Timeout // lower bound unknown without the schedule row; use the createdOn of the command
-				_ = occ
-				if s0 := prev.S[sid]; s0 == nil && pc.CreatedOn > ack {
-					m.violate("C10", "row:fired-after-delete", fmt.Sprintf("promise %s of deleted schedule %s was created by a cycle that started (t=%d) after the delete was acknowledged (t=%d)", pc.Id, sid, pc.CreatedOn, ack))
+			// the schedule row was deleted (or re-created) under the cycle's feet; the occurrence it
+			// fires was read before that, so it must not be later than an acknowledged deletion
+			for _, d := range cmds {
+				if d.tx == c.tx && d.cmd.Kind == t_aio.UpdateSchedule && d.cmd.UpdateSchedule.Id == sid && d.cmd.UpdateSchedule.LastRunTime != nil {
+					if del, ok := m.deletedAck[sid]; ok && next.S[sid] == nil && *d.cmd.UpdateSchedule.LastRunTime > del {
+						m.violate("C10", "row:fired-after-delete", fmt.Sprintf("promise %s: occurrence %d of schedule %s fired although the schedule was deleted at %d", pc.Id, *d.cmd.UpdateSchedule.LastRunTime, sid, del))
+					}
 				}
 			}
 			m.hit("schedule.promise-without-advance")
@@ -874,6 +937,7 @@ func nz(b []byte) []byte {
 
 func (m *Monitors) checkNewSchedule(s1 *vh.SRow, t int64) {
 	m.hit("schedule.created")
+	delete(m.deletedAck, s1.Id)
 	if s1.Last != nil {
 		m.violate("C10", "row:new-schedule-has-last-run", fmt.Sprintf("new schedule has lastRunTime: %s", s1))
 	}
@@ -906,6 +970,9 @@ func (m *Monitors) checkSelections(prev *vh.Snapshot, bi *BatchInfo, next *vh.Sn
 		for j, c := range tx.Commands {
 			if c.Kind != t_aio.ReadEnqueueableTasks || tx.Results == nil {
 				continue
+			}
+			for _, r := range tx.Results[j].ReadEnqueueableTasks.Records {
+				m.selected[r.Id] = r.Counter
 			}
 			// find a snapshot that is the state this read saw
 			var snap *vh.Snapshot
@@ -1020,14 +1087,19 @@ func (m *Monitors) OnSend(sub *t_aio.SenderSubmission, sm *SentMsg) {
 		m.violate("C19", "dispatch:body-unparsable", fmt.Sprintf("body of %s: %v", sub.Task.Id, err))
 		return
 	}
-	if body.Task.Id != row.Id || body.Task.Counter != row.Counter {
-		m.violate("C08", "dispatch:message-names-wrong-task", fmt.Sprintf("message names (%s,%d) but the selected task row is %s", body.Task.Id, body.Task.Counter, row))
+	sel, ok := m.selected[row.Id]
+	if !ok {
+		m.violate("C08", "dispatch:message-without-selection", fmt.Sprintf("message for %s which no dispatch cycle selected", row.Id))
+		return
+	}
+	if body.Task.Id != row.Id || body.Task.Counter != sel {
+		m.violate("C08", "dispatch:message-names-wrong-task", fmt.Sprintf("message names (%s,%d) but the dispatch cycle selected (%s,%d)", body.Task.Id, body.Task.Counter, row.Id, sel))
 	}
 	base := m.s.cfg.Sys.Url
 	want := map[string]string{
-		"claim":     fmt.Sprintf("%s/tasks/claim/%s/%d", base, row.Id, row.Counter),
-		"complete":  fmt.Sprintf("%s/tasks/complete/%s/%d", base, row.Id, row.Counter),
-		"heartbeat": fmt.Sprintf("%s/tasks/heartbeat/%s/%d", base, row.Id, row.Counter),
+		"claim":     fmt.Sprintf("%s/tasks/claim/%s/%d", base, row.Id, sel),
+		"complete":  fmt.Sprintf("%s/tasks/complete/%s/%d", base, row.Id, sel),
+		"heartbeat": fmt.Sprintf("%s/tasks/heartbeat/%s/%d", base, row.Id, sel),
 	}
 	if !mapEq(body.Href, want) {
 		m.violate("C08", "dispatch:hrefs", fmt.Sprintf("message hrefs %v, expected %v", body.Href, want))
@@ -1161,14 +1233,6 @@ func (m *Monitors) OnReturn(o *OpRec) {
 			if tk == nil || tk.Id != r.Id || tk.Counter != r.Counter {
 				m.violate("C07", "payload:claim-names-other-task", fmt.Sprintf("op%d claimed (%s,%d) but the reply names %v", o.Idx, r.Id, r.Counter, tk))
 			}
-		}
-	case t_api.DeleteSchedule:
-		if st == 20400 {
-			m.deletedAck[o.Req.DeleteSchedule.Id] = m.s.now
-		}
-	case t_api.CreateSchedule:
-		if st == 20100 {
-			delete(m.deletedAck, o.Req.CreateSchedule.Id)
 		}
 	}
 }
